@@ -5,6 +5,7 @@ package main
 
 import (
 	"encoding/json"
+	"golang.org/x/tools/go/ssa"
 	"flag"
 	"fmt"
 	"os"
@@ -21,6 +22,7 @@ type PropConfig struct {
 	NotApplicable []string `json:"not_applicable"` // clauses declared N/A (informational, copied to evidence)
 	Assumptions   []string `json:"assumptions"`
 	Bounded       []string `json:"bounded"` // names of bounded stand-ins (run by `bounded` subcommand)
+	Callers       map[string][]string `json:"callers"` // callee -> the only functions allowed to call it (package sweep)
 }
 
 type KnownFinding struct {
@@ -155,6 +157,9 @@ func checkMain(args []string) int {
 		}
 	}
 
+	// package sweep: the listed callees are called only from the listed functions
+	sweepViolations := callersSweep(w, pc)
+
 	// vacuity guard: every function's obligations must be reachable under its assumptions
 	var vcs []vcAndKey
 	for _, r := range results {
@@ -206,6 +211,13 @@ func checkMain(args []string) int {
 		fmt.Fprintf(f, "obligation: <contract-binding>\n%s\n", e)
 		f.Close()
 		report("<contract-binding>", "contract could not be bound to the code: "+e, rp, false)
+	}
+	for _, v := range sweepViolations {
+		rp := filepath.Join(replayDir, "callers.txt")
+		f, _ := os.OpenFile(rp, os.O_APPEND|os.O_CREATE|os.O_WRONLY, 0o644)
+		fmt.Fprintf(f, "obligation: <callers>\n%s\n", v)
+		f.Close()
+		report("<callers>", v, rp, false)
 	}
 	for _, v := range vacuous {
 		rp := filepath.Join(replayDir, "vacuity.txt")
@@ -445,4 +457,55 @@ func pcBounded(pc *PropConfig) []string {
 		return nil
 	}
 	return pc.Bounded
+}
+
+// callersSweep: syntactic sweep over every repository function for calls to the guarded callees.
+func callersSweep(w *World, pc *PropConfig) []string {
+	var out []string
+	if len(pc.Callers) == 0 {
+		return nil
+	}
+	var keys []string
+	for k := range w.funcs {
+		keys = append(keys, k)
+	}
+	sort.Strings(keys)
+	for _, k := range keys {
+		fn := w.funcs[k]
+		if !w.isRepoFunc(fn) {
+			continue
+		}
+		if p := w.prog.Fset.Position(fn.Pos()); strings.HasSuffix(p.Filename, "_test.go") {
+			continue
+		}
+		for _, b := range fn.Blocks {
+			for _, in := range b.Instrs {
+				ci, ok := in.(ssa.CallInstruction)
+				if !ok {
+					continue
+				}
+				c := ci.Common()
+				callee := ""
+				if c.IsInvoke() {
+					callee = "(" + canonKey(c.Value.Type().String()) + ")." + c.Method.Name()
+				} else if sc := c.StaticCallee(); sc != nil {
+					callee = funcKey(sc)
+				}
+				allowed, guarded := pc.Callers[callee]
+				if !guarded {
+					continue
+				}
+				ok2 := false
+				for _, a := range allowed {
+					if a == k {
+						ok2 = true
+					}
+				}
+				if !ok2 {
+					out = append(out, fmt.Sprintf("%s is called from %s, which is not one of the functions verified to establish its precondition (%s)", callee, k, strings.Join(allowed, ", ")))
+				}
+			}
+		}
+	}
+	return out
 }
